@@ -329,19 +329,20 @@ class HarnessRun:
         self.log = ""
         self.replay = None       # dict
         self.vccs = None
+        self.steps = None
 
 
-def run_kani(crate, h, tdir, logdir, extra=None, timeout=None):
+def run_kani(crate, h, tdir, logdir, extra=None, timeout=None, mem=None, suffix=""):
     cmd = ["cargo", "kani", "--harness", h.fqname, "--exact", "--target-dir", tdir,
            "-Z", "stubbing"]
     if h.flags:
         cmd += h.flags.split(",")
     if extra:
         cmd += extra
-    memkb = h.mem * 1024 * 1024
+    memkb = (mem or h.mem) * 1024 * 1024
     shell = "ulimit -v %d; exec %s" % (memkb, " ".join(cmd))
     t0 = time.time()
-    logf = os.path.join(logdir, h.name + ".log")
+    logf = os.path.join(logdir, h.name + suffix + ".log")
     to = timeout or h.timeout
     with open(logf, "w") as lf:
         p = subprocess.Popen(["bash", "-c", shell], cwd=crate, env=ENV, stdout=lf,
@@ -386,6 +387,9 @@ def evaluate(h, out, rc, timed_out, wall, logf):
     m = re.search(r"Generated (\d+) VCC\(s\), (\d+) remaining after simplification", out)
     if m:
         r.vccs = (int(m.group(1)), int(m.group(2)))
+    m = re.search(r"size of program expression: (\d+) steps", out)
+    if m:
+        r.steps = int(m.group(1))
     if "VERIFICATION:-" not in out or not checks:
         r.status = "inconclusive"
         if "out of memory" in out.lower() or "std::bad_alloc" in out or rc in (-9, 137, 134, -6):
@@ -451,8 +455,8 @@ def replay(crate, h, tdir, logdir):
     out, rc, to, wall, logf = run_kani(
         crate, h, tdir, logdir,
         extra=["-Z", "concrete-playback", "--concrete-playback=inplace"],
-        timeout=h.timeout * 2)
-    shutil.copy(logf, logf.replace(".log", ".playback-gen.log"))
+        timeout=h.timeout * 2, mem=max(32, h.mem * 3),  # producing the trace needs more memory than the verdict
+        suffix=".playback-gen")
     hfile = os.path.join(crate, "verif_h", h.file)
     src = open(hfile).read()
     tests = re.findall(r"fn (kani_concrete_playback_%s_\w+)\(" % re.escape(h.name), src)
